@@ -56,11 +56,15 @@ CLAIMS = {
               "(db_ranges_disjoint_increasing, db_replay_never_repeats); a node's SeqGroup never hands out an id twice "
               "under any interleaving of requests and range arrivals (group_unique; reordering can make ids go backwards "
               "- kept as a visible counter-example theorem); config history ids are strictly increasing across leader "
-              "changes and restarts for any number of nodes and batch size (history_ids_strictly_increasing). Tie: "
+              "changes and restarts for any number of nodes and batch size (history_ids_strictly_increasing), also when a "
+              "node restarts from a snapshot taken EARLIER (possibly in the middle of a block of ids) plus the replay of the "
+              "requests committed since, of which only block-opening ones carry a mark "
+              "(history_ids_increasing_with_snapshots). Tie: "
               "differential correspondence on the real SequenceDbManager actor, SeqGroup and SimpleSequence objects; "
               "oracle = uniqueness/monotonicity of the implementation's own answers."),
         note=("trusted: Lean kernel; hand model RNacos/Model/Sequence.lean; the harness re-states how ConfigActor wires "
-              "SimpleSequence (mark applied by every node, restart = get_end_id/set_last_id); assumes the request that "
+              "SimpleSequence for the `c` family; the `r` family and the apply harness (`reqd`) use real ConfigActors and the "
+              "guarded hook VerifConfigSeq (draw = next_state as ConfigAsyncCmd::Add does, snapshot value = get_end_id); assumes the request that "
               "carries a new mark commits and that Raft applies in the same order everywhere; u64 overflow out of scope"),
         technique="Lean 4 theorem (invariants by induction over op sequences) + differential correspondence"),
     "C16": dict(
@@ -159,11 +163,16 @@ CLAIMS = {
               "append_refused. The record codec round trip is proved (decFrame_frame). Tie: differential correspondence "
               "against the real LogInnerManager on real files incl. a hash of the whole file after each case, sizes that "
               "align frames with the 1024-byte read chunks, 2/3-byte index steps, small index geometry through a guarded "
-              "hook; oracle = list of acknowledged entries."),
-        note=("trusted: Lean kernel; hand model RNacos/Model/LogFile.lean; the chunked readers are represented by the "
-              "whole-stream parse (C20 proves them equal for every chunking of frames+zeros); binary search modelled as "
-              "last entry <= start; file < 2^64 bytes, indexes >= 1; the multi-file manager (RaftLogManager) is covered by "
-              "the `logstore` correspondence only"),
+              "hook; oracle = list of acknowledged entries. Several files: a model of RaftLogManager (catalogue of files + what each "
+              "holds, RNacos/Model/LogManager.lean) in which *when a file is full* is a parameter; for every such oracle, "
+              "every record size and any number of files, append / replicate and reads equal the list specification and the "
+              "catalogue invariant Chain is kept (manager_append_refines, manager_get_refines). That model is executed step by "
+              "step against the real FileStore: the roll-over decisions are read off the catalogue the real manager persisted "
+              "after the operation, and the model's catalogue must equal it."),
+        note=("trusted: Lean kernel; hand models RNacos/Model/LogFile.lean and LogManager.lean; the chunked readers are "
+              "represented by the whole-stream parse (C20 proves them equal for every chunking of frames+zeros); binary "
+              "search modelled as last entry <= start; file < 2^64 bytes, indexes >= 1; manager level: a file is abstract "
+              "(list of its records), an empty file takes a record (hfresh), batches are contiguous"),
         technique="Lean 4 theorem (representation invariant, refinement for all histories) + differential correspondence"),
     "C03": dict(
         category="proof",
@@ -176,9 +185,16 @@ CLAIMS = {
               "last remaining entry (truncate_reports_last_term); cuts outside the log are no-ops / refused "
               "(truncate_outside). Tie: differential correspondence against the real LogInnerManager over cut points "
               "k-1/k/k+1 around every index entry x re-append shorter/equal/longer x reopen, file hash compared; four "
-              "genuine defects found this way and fixed (F02-F05)."),
-        note=("trusted: as C02; the multi-file cases (rollover, snapshot pointer files) are covered by the `logstore` "
-              "correspondence with the real RaftLogManager/FileStore, not by a theorem"),
+              "genuine defects found this way and fixed (F02-F05). Several files (rollover, compaction pointer, installed "
+              "snapshot): on the manager-level model (see C02) delete_logs_from equals the specification's deleteFrom for "
+              "every file geometry - exactly the entries from k on disappear whichever files hold them, the file that holds "
+              "the cut is the open log again, the next append is expected at k (manager_delete_refines); a compaction / "
+              "installation pointer replaces everything up to its index and nothing else (manager_pointer_refines); the "
+              "model is executed step by step against the real FileStore's persisted catalogue; F09, F10b, F11, F28 were "
+              "found at this level."),
+        note=("trusted: as C02; the manager-level theorems carry hypotheses that Raft's use satisfies and the generators "
+              "respect: the cut is not below a compaction/snapshot pointer, a pointer lies inside the log and not below the "
+              "previous one (the excluded point is where F28 was found)"),
         technique="Lean 4 theorem (representation invariant) + differential correspondence"),
     "C04": dict(
         category="fault_enumeration",
@@ -274,8 +290,11 @@ CLAIMS = {
               "exactly the differing keys (immediate_if_differs); a change answers every long-poll registered under the "
               "key (change_answers_all); expired long-polls are answered by the next tick (tick_answers_expired); "
               "publish/remove notify exactly the current subscribers (publish_notifies_subscribers, "
-              "remove_notifies_subscribers). Kept visible as kernel-checked counter-examples: temporary values bypass "
-              "notification (outside the property's alphabet) and remove drops gRPC subscriptions (known finding F13, "
+              "remove_notifies_subscribers). Temporary values (SetTmpValue on a node that forwarded a publish) change the served "
+              "md5 without telling anybody (kernel-checked counter-example, outside the property's alphabet); the committed "
+              "publish that follows notifies whatever it contains and answers every long-poll registered under the key "
+              "(publish_after_tmp_notifies, publish_after_tmp_answers) - the spec oracle enforces this on the real actor. Kept "
+              "visible: remove drops gRPC subscriptions (known finding F13, "
               "replayed on the real actor every run). Tie: differential correspondence on the real ConfigActor with real "
               "oneshot receivers and the NotifyConfig hook log."),
         note=("trusted: Lean kernel; hand model RNacos/Model/Listener.lean with ghost md5s of pending long-polls; the "
@@ -320,7 +339,9 @@ CLAIMS = {
               "instances are never touched (persistent_grpc_never_expire); a silent HTTP instance is unhealthy (or "
               "gone) after the first check past the health time-out and gone after the first check past the instance "
               "time-out (unhealthy_after, removed_after), with the arming facts they need (update_arms, "
-              "markUnhealthy_arms). Kept visible: taken_over_never_expires = open known finding F16c (replayed on the "
+              "markUnhealthy_arms); a heartbeat (PUT /instance/beat: an update tag with nothing set) never changes what a "
+              "registered instance is - persistence class, enabled, weight, the persistent set (beat_keeps_persistence). "
+              "Kept visible: taken_over_never_expires = open known finding F16c (replayed on the "
               "real actor every run); F16a found and fixed. Tie: correspondence on the real NamingActor with a frozen "
               "wall clock incl. the exact +-1 ms boundaries of both time-outs; timeline oracle on the "
               "implementation's answers. Not covered: the 2 s timer that issues the checks, 'and then everywhere' "
